@@ -270,3 +270,38 @@ Definition ymon_stop (c : ycase) : bool :=
   forallb (fun rc => fst rc =? 0) (y_after c)
   && (fold_right (fun rc a => snd rc + a) 0 (y_after c) =? y_cycles c).
 Definition ymons (l : list ycase) := mon_idx [ymon_live; ymon_stop] l.
+
+(* ================================================================ the counters as the archiver feeds them *)
+Record hcase := HC {
+  h_async : bool; h_retry : N;
+  h_ok : bool;                               (* every seed came back from the archiver *)
+  h_items : list (list N * list N);          (* per item: (status script, statuses the origin served) *)
+  h_urls : N;                                (* URLs crawled total *)
+  h_keys : list (N * N);                     (* (status, per-status total) *)
+  h_extra : N }.                             (* requests for paths that were not planned (followed redirects) *)
+
+(* retry_class, attempts, arch_calls: Atomics.v *)
+Definition hdiff_case (c : hcase) : bool :=
+  negb (h_ok c) || negb (h_extra c =? 0)
+  || negb (forallb (fun it => listN_eqb (attempts (S (N.to_nat (h_retry c))) (fst it)) (snd it)) (h_items c))
+  || (let segs := arch_calls (map (fun it => attempts (S (N.to_nat (h_retry c))) (fst it)) (h_items c)) in
+      negb (h_urls c =? sigma_segs (LTotal RUrls) segs)
+      || negb (forallb (fun k => key_total (h_keys c) k =? sigma_segs (LTotal (RKey k)) segs)
+                       (map fst (h_keys c) ++ incremented_keys segs))).
+Definition hdiffs (l : list hcase) := bad_idx hdiff_case l.
+
+(* monitors: the reported counts against what the origin served to completion *)
+Definition served_count (c : hcase) (s : N) : N :=
+  fold_right (fun it a => N.of_nat (length (filter (N.eqb s) (snd it))) + a) 0 (h_items c).
+Definition served_statuses (c : hcase) : list N := flat_map snd (h_items c).
+(* 0: statuses archive() accepts (2xx, 3xx, 4xx but 408/425/429) *)
+Definition hmon_accepted (c : hcase) : bool :=
+  forallb (fun s => retry_class s || (key_total (h_keys c) s =? served_count c s))
+          (served_statuses c ++ map fst (h_keys c)).
+(* 1: statuses archive() retries on or gives up on (5xx, 408, 425, 429) *)
+Definition hmon_retried (c : hcase) : bool :=
+  forallb (fun s => negb (retry_class s) || (key_total (h_keys c) s =? served_count c s))
+          (served_statuses c ++ map fst (h_keys c)).
+(* 2: URLs crawled = items that left the archiver *)
+Definition hmon_urls (c : hcase) : bool := h_ok c && (h_urls c =? N.of_nat (length (h_items c))).
+Definition hmons (l : list hcase) := mon_idx [hmon_accepted; hmon_retried; hmon_urls] l.
